@@ -289,11 +289,26 @@ class CircuitCompositeOperation(ICircuitCompositeOperation):
         # Nodes are processed in order of creation: a (multi-)relation link only refers to operations that were added
         # earlier, while the relation-depth order lists a shallow reference node after a deeper dependent operation
         # (its reference would not be known to the lookup yet and get lost).
-        for node in sorted(self._circuit_graph.get_node_iterator(), key=lambda _node: _node.identifier):
+        # After flattening (nodes are re-created in relation-depth order) a reference node can still be newer than its
+        # dependent operation, such reference nodes are copied first.
+        nodes: List[OperationGraphNode] = sorted(self._circuit_graph.get_node_iterator(), key=lambda _node: _node.identifier)
+        node_lookup: Dict[int, OperationGraphNode] = {id(node.operation): node for node in nodes}
+        processed_operations: set = set()
+
+        def copy_node(node: OperationGraphNode) -> None:
+            if id(node.operation) in processed_operations:
+                return
+            processed_operations.add(id(node.operation))
+            for reference_node in CircuitCompositeOperation._get_reference_nodes(node.operation.relation_link):
+                if id(reference_node) in node_lookup:
+                    copy_node(node_lookup[id(reference_node)])
             operation_copy = node.operation.copy(relation_transfer_lookup=relation_transfer_lookup)
             # Keep track of copied operations for relation transfer
             relation_transfer_lookup[node.operation] = operation_copy
             result.add(operation_copy)
+
+        for node in nodes:
+            copy_node(node)
 
         return result
 
@@ -394,16 +409,21 @@ class CircuitCompositeOperation(ICircuitCompositeOperation):
         return self
 
     @staticmethod
+    def _get_reference_nodes(link: IRelationLink) -> List[ICircuitOperation]:
+        """:return: Array-like of all operations a relation link refers to (empty if link has no reference)."""
+        if isinstance(link, MultiRelationLink):
+            return list(link._reference_nodes)
+        if link.reference_node is not None:
+            return [link.reference_node]
+        return []
+
+    @staticmethod
     def _resolve_composite_references(link: IRelationLink) -> IRelationLink:
         """
         :return: Relation link of which composite-operation reference nodes are replaced by their contained operations.
         Only applies to 'FOLLOWED_BY' relations (follows the latest of the contained operations), otherwise returns link as is.
         """
-        reference_nodes: List[ICircuitOperation] = []
-        if isinstance(link, MultiRelationLink):
-            reference_nodes = list(link._reference_nodes)
-        elif link.reference_node is not None:
-            reference_nodes = [link.reference_node]
+        reference_nodes: List[ICircuitOperation] = CircuitCompositeOperation._get_reference_nodes(link)
         contains_composite: bool = any(isinstance(node, ICircuitCompositeOperation) for node in reference_nodes)
         if not contains_composite or link.relation_type != RelationType.FOLLOWED_BY:
             return link
